@@ -337,36 +337,48 @@ func (e *c5e) topLits(out *[]*c5e) {
 	}
 }
 
-// ellipsisInEmbeddedConjunction: some embedding is a conjunction one of whose operands
-// has `...` at its own level.
-func (e *c5e) ellipsisInEmbeddedConjunction() bool {
+// ellipsisInsideEmbedding: some embedded expression contains, at any depth, a struct
+// literal with `...`.
+func (e *c5e) ellipsisInsideEmbedding() bool {
+	hasEll := func(n *c5e) bool {
+		if n.op != '{' {
+			return false
+		}
+		for _, d := range n.decls {
+			if d.kind == '.' {
+				return true
+			}
+		}
+		return false
+	}
 	return e.anyNode(func(n *c5e) bool {
 		if n.op != '{' {
 			return false
 		}
 		for _, d := range n.decls {
-			if d.kind != 'e' {
-				continue
-			}
-			u := d.v.unwrap()
-			if u.op == '&' && u.hasEllTop() {
+			if d.kind == 'e' && d.v.anyNode(hasEll) {
 				return true
-			}
-			// a literal that embeds such a conjunction at its own level
-			var ls []*c5e
-			u.topLits(&ls)
-			for _, l := range ls {
-				for _, d2 := range l.decls {
-					if d2.kind == 'e' {
-						if u2 := d2.v.unwrap(); u2.op == '&' && u2.hasEllTop() {
-							return true
-						}
-					}
-				}
 			}
 		}
 		return false
 	})
+}
+
+// hasTopConj: the schema is, at its own struct level, a conjunction.
+func (e *c5e) hasTopConj() bool {
+	switch e.op {
+	case '&':
+		return true
+	case 'c', 'd':
+		return e.args[0].hasTopConj()
+	case '{':
+		for _, d := range e.decls {
+			if d.kind == 'e' && d.v.hasTopConj() {
+				return true
+			}
+		}
+	}
+	return false
 }
 
 // nestedEmbedding: an embedding occurs anywhere inside an embedded expression.
@@ -713,8 +725,8 @@ func c5emit(c *Cfg, o c5out) {
 		switch {
 		case o.cs.schema.closeOfDef():
 			tag = "close-of-definition-reference"
-		case o.cs.schema.ellipsisInEmbeddedConjunction():
-			tag = "ellipsis-in-embedded-conjunction"
+		case o.cs.schema.ellipsisInsideEmbedding():
+			tag = "ellipsis-inside-embedding"
 		case o.cs.schema.nestedEmbedding():
 			tag = "nested-embedding"
 		}
@@ -727,8 +739,8 @@ func c5emit(c *Cfg, o c5out) {
 	c.OpTag("O", tag, "adm "+sw+" "+dw, o.res.class)
 	if o.res.allows != nil {
 		atag := tag
-		if atag == "" && o.cs.schema.topClosers() >= 2 {
-			atag = "allows-with-several-closed-conjuncts"
+		if atag == "" && (o.cs.schema.topClosers() >= 2 || (o.cs.schema.topClosers() >= 1 && o.cs.schema.hasTopConj())) {
+			atag = "allows-ignores-closed-conjuncts"
 		}
 		for _, l := range c5allowLabels {
 			c.OpTag("O", atag, "allows "+sw+" "+dw+" "+l, fmt.Sprint(o.res.allows[l]))
@@ -748,8 +760,8 @@ func c5emit(c *Cfg, o c5out) {
 		switch {
 		case o.sole == "ok" && o.cs.schema.closeOfDef():
 			stag = "close-of-definition-reference"
-		case o.sole == "ok" && wrapped.ellipsisInEmbeddedConjunction():
-			stag = "ellipsis-in-embedded-conjunction"
+		case o.sole == "ok" && wrapped.ellipsisInsideEmbedding():
+			stag = "ellipsis-inside-embedding"
 		case o.sole == "ok" && wrapped.nestedEmbedding():
 			stag = "nested-embedding"
 		case o.sole == "err" && o.res.class == "ok" && o.cs.schema.recConj():
@@ -943,7 +955,7 @@ func runC05(c *Cfg) {
 		// `{A}` versus `A` with an ellipsis in an embedded conjunction / nested embeddings
 		lit(emb(conj(df(lit(A("?", c5int))), lit(ellD())))),
 		lit(emb(lit(emb(lit(ellD())), A("?", df(lit()))))),
-		lit(emb(lit(B("", lit(emb(df(lit(ptn("!c", c5int))))), ptn("b$", df(lit(C("", c5two))))))),
+		lit(emb(lit(B("", lit(emb(df(lit(ptn("!c", c5int)))))), ptn("b$", df(lit(C("", c5two))))))),
 	}
 	dataVals := []*c5e{c5one, c5s1, lit(), lit(fld("b", "", c5one)), lit(fld("c", "", c5one)), lit(fld("zz", "", c5one))}
 	corpusD := c5dataUniverse([]string{"a", "b", "c", "ab", "_h"}, dataVals, 2)
@@ -1018,7 +1030,8 @@ func runC05(c *Cfg) {
 				outer := lit(fld("a", m, iw))
 				for _, ow := range c5wraps(outer, false) {
 					for _, d := range data2 {
-						if k2++; c.Thorough() || k2%3 == int(c.Seed)%3 {
+						k2++
+						if c.Thorough() || k2%3 == int(c.Seed)%3 {
 							add("exh-depth2", ow, d)
 						}
 					}
@@ -1029,7 +1042,8 @@ func runC05(c *Cfg) {
 				outer := lit(emb(df(lit(fld("a", "", iw)))), fld("a", "", own))
 				for _, ow := range []*c5e{outer, cl(outer), df(outer)} {
 					for _, d := range data2 {
-						if k2++; c.Thorough() || k2%3 == int(c.Seed)%3 {
+						k2++
+						if c.Thorough() || k2%3 == int(c.Seed)%3 {
 							add("exh-embed-own", ow, d)
 						}
 					}
